@@ -28,6 +28,9 @@ func (ex *Exec) call(st *State, fr *Frame, c *ssa.CallCommon, site ssa.Instructi
 		return ex.callStatic(st, fr, clo.Fn, args, clo.Binds, c, site, pos)
 	}
 	// unknown function value
+	for _, a := range args {
+		ex.markEscapedAny(a)
+	}
 	ex.abstracted["call through function value in "+funcName(fr.fn)] = true
 	ex.havocAllHeap(st, "function value")
 	return ex.freshResults(st, c.Signature().Results(), "fv")
@@ -113,6 +116,9 @@ func (ex *Exec) callStatic(st *State, fr *Frame, callee *ssa.Function, args []Va
 	if in, ok := externalModels[fnm]; ok {
 		return in(ex, st, fr, callee, args, c, pos)
 	}
+	for _, a := range args {
+		ex.markEscapedAny(a)
+	}
 	if inModule(callee) {
 		ex.abstracted["call to "+funcName(callee)+" abstracted (beyond inline budget or recursive): whole heap havocked"] = true
 		ex.havocAllHeap(st, fnm)
@@ -125,6 +131,9 @@ func (ex *Exec) callStatic(st *State, fr *Frame, callee *ssa.Function, args []Va
 // pointer and slice arguments havocked.
 func (ex *Exec) externalDefault(st *State, fr *Frame, sig *types.Signature, name string, c *ssa.CallCommon, args []Val, pos token.Pos) Val {
 	ex.vc.Trust("external call " + name + ": results unconstrained, memory reachable from arguments havocked")
+	for _, a := range args {
+		ex.markEscapedAny(a)
+	}
 	for i, a := range args {
 		var at types.Type
 		if i < len(c.Args) {
